@@ -193,3 +193,31 @@ func reachableMessages(root any) map[uintptr]bool {
 	walk(reflect.ValueOf(root), 0)
 	return found
 }
+
+// ringState reads, by reflection and by the field names of the pinned tree, the head index,
+// element count and size of a replayer's ring buffer. It feeds reach probes only ("did a run
+// grow the ring while it was wrapped?"), never an oracle; on a tree with other names ok is false.
+func ringState(replayer any) (head, count, size int, ok bool) {
+	v := reflect.ValueOf(replayer)
+	for v.IsValid() && (v.Kind() == reflect.Ptr || v.Kind() == reflect.Interface) {
+		if v.IsNil() {
+			return 0, 0, 0, false
+		}
+		v = v.Elem()
+	}
+	if !v.IsValid() || v.Kind() != reflect.Struct {
+		return 0, 0, 0, false
+	}
+	q := v.FieldByName("messages")
+	if !q.IsValid() {
+		q = v.FieldByName("buf") // FiniteReplayer
+	}
+	if !q.IsValid() || q.Kind() != reflect.Struct {
+		return 0, 0, 0, false
+	}
+	h, c, b := q.FieldByName("head"), q.FieldByName("count"), q.FieldByName("buf")
+	if !h.IsValid() || !c.IsValid() || !b.IsValid() || h.Kind() != reflect.Int || c.Kind() != reflect.Int || b.Kind() != reflect.Slice {
+		return 0, 0, 0, false
+	}
+	return int(h.Int()), int(c.Int()), b.Len(), true
+}
